@@ -12,6 +12,8 @@ import RSVerif.Model.Select
 import RSVerif.Model.Lazy
 import RSVerif.Model.EngineSeq
 import RSVerif.Model.TableInit
+import RSVerif.Model.SimdBlock
+import RSVerif.Model.Flat
 
 open RS
 
@@ -116,6 +118,23 @@ def parseSymbols (s : String) : Option (Array Sym) :=
 
 def showSymbols (a : Array Sym) : String :=
   if a.size = 0 then "-" else ",".intercalate (a.toList.map fun x => toString x.toNat)
+
+/-- 64·n bytes -> n blocks -/
+def blocksOfBytes (b : Array Nat) : Array Block :=
+  Array.ofFn (n := b.size / 64) fun q => Vector.ofFn fun j => BitVec.ofNat 8 (b.getD (64 * q.val + j.val) 0)
+
+def bytesOfBlocks (a : Array Block) : Array Nat :=
+  a.flatMap fun blk => blk.toArray.map (·.toNat)
+
+def blockOfBytes (b : Array Nat) : Block := Vector.ofFn fun j => BitVec.ofNat 8 (b.getD j.val 0)
+
+/-- flat memory whose block `j` consists of the byte `j % 251` (fingerprint of "which blocks does a view
+    show") -/
+def flatPattern (count len64 : Nat) : Flat :=
+  ⟨count, len64, Array.ofFn (n := count * len64) fun j => Vector.replicate 64 (BitVec.ofNat 8 (j.val % 251))⟩
+
+def viewPrint (v : Array Block) : String :=
+  ",".intercalate (v.toList.map fun b => toString (b.toArray.getD 0 0#8).toNat)
 
 def handle (st : Session) (line : String) : Session × String :=
   match line.trimAscii.toString.splitOn " " with
@@ -290,6 +309,79 @@ def handle (st : Session) (line : String) : Session × String :=
         | .naive => naiveIfftSeq a pos n trunc delta
         | .twoLayer => twoIfftSeq a pos n trunc delta))
     | _, _, _, _, _, _ => (st, "bad-op")
+  | ["T", "kmul", engine, m, blk] =>
+    -- the per-block multiply kernel of one engine family (Model/SimdBlock.lean), tables of g^m
+    match m.toNat?, parseHex blk with
+    | some m, some b =>
+      let f : Sym → Sym := fun y => mulLog y m
+      let x := blockOfBytes b
+      let r := match engine with
+        | "nosimd" => some (nosimdMulBlock f x)
+        | "ssse3" => some (ssse3MulBlock f x)
+        | "avx2" => some (avx2MulBlock f x)
+        | "neon" => some (neonMulBlock f x)
+        | _ => none
+      (match r with
+       | some r => (st, toHex (r.toArray.map (·.toNat)))
+       | none => (st, "bad-op"))
+    | _, _ => (st, "bad-op")
+  | ["T", "kbfly", engine, dir, delta, xs, ys] =>
+    -- one butterfly of an fft / ifft of size 2 on one block pair: twiddle SKEW[delta]; the code's
+    -- shortcut (log_m = 65535: xor only) included
+    match delta.toNat?, parseHex xs, parseHex ys with
+    | some delta, some xb, some yb =>
+      let m := skewLog delta
+      let f : Sym → Sym := fun y => mulLog y m
+      let x := blockOfBytes xb
+      let y := blockOfBytes yb
+      let r : Option (Block × Block) :=
+        if m = 65535 then some (x, blockXor y x)
+        else match engine, dir with
+          | "nosimd", "fft" => some (nosimdFftb f x y)
+          | "ssse3", "fft" => some (ssse3Fftb f x y)
+          | "avx2", "fft" => some (avx2Fftb f x y)
+          | "neon", "fft" => some (neonFftb f x y)
+          | "nosimd", "ifft" => some (nosimdIfftb f x y)
+          | "ssse3", "ifft" => some (ssse3Ifftb f x y)
+          | "avx2", "ifft" => some (avx2Ifftb f x y)
+          | "neon", "ifft" => some (neonIfftb f x y)
+          | _, _ => none
+      (match r with
+       | some (a, b) => (st, toHex (a.toArray.map (·.toNat)) ++ " " ++ toHex (b.toArray.map (·.toNat)))
+       | none => (st, "bad-op"))
+    | _, _, _ => (st, "bad-op")
+  | ["T", "flatbfly", dir, count, len64, pos, delta, dat] =>
+    -- fft / ifft of size 2 at `pos` on the flat working memory (Model/Flat.lean): dist2_mut index
+    -- arithmetic, byte-level xor / multiply, write-back
+    match count.toNat?, len64.toNat?, pos.toNat?, delta.toNat?, parseHex dat with
+    | some count, some len64, some pos, some delta, some b =>
+      let f : Flat := ⟨count, len64, blocksOfBytes b⟩
+      let c := skewElem delta
+      let r := if dir = "fft" then f.fftBfly c pos 1 else f.ifftBfly c pos 1
+      (match r with
+       | some g => (st, toHex (bytesOfBlocks g.data))
+       | none => (st, "panic"))
+    | _, _, _, _, _ => (st, "bad-op")
+  | ["T", "flatview", op, count, len64, a, b] =>
+    -- which blocks the views of the accessors show / whether they panic (Rust slice-bound semantics)
+    match count.toNat?, len64.toNat?, a.toNat?, b.toNat? with
+    | some count, some len64, some a, some b =>
+      let f := flatPattern count len64
+      let r : String := match op with
+        | "index" => (match f.shard a with | some v => viewPrint v | none => "panic")
+        | "dist2" => (match f.dist2 a b with
+            | some (x, y) => viewPrint x ++ ";" ++ viewPrint y | none => "panic")
+        | "dist4" => (match f.dist4 a b with
+            | some (x, y, z, w) => viewPrint x ++ ";" ++ viewPrint y ++ ";" ++ viewPrint z ++ ";" ++ viewPrint w
+            | none => "panic")
+        | "zero" => (match f.zero a b with | some g => viewPrint g.data | none => "panic")
+        | "zerofrom" => (match f.zeroFrom a with | some g => viewPrint g.data | none => "panic")
+        | "split" => (match f.splitAt a with
+            | some (l, r) => s!"{l.count}:" ++ viewPrint l.data ++ ";" ++ s!"{r.count}:" ++ viewPrint r.data
+            | none => "panic")
+        | _ => "bad-op"
+      (st, r)
+    | _, _, _, _ => (st, "bad-op")
   | ["T", "evalpoly", trunc, marks] =>
     -- marks: comma-separated marked positions; answer: the 65536 logs, comma-separated
     match trunc.toNat?, (splitList marks).mapM (·.toNat?) with
